@@ -231,7 +231,16 @@ fn c18(args: &Args) {
     let mut rng = Rng::new(args.seed);
     let (n_random, n_bases, per_base) = if thorough { (150_000, 2_000, 60) } else { (15_000, 150, 40) };
     gen::random_cases(&mut cases, &mut rng, n_random);
-    gen::mutant_cases(&mut cases, &mut rng, n_bases, per_base, &[]);
+    let is_sound = |lines: &[Line]| -> bool {
+        let mut f = real::Filler(Rng::new(7));
+        let mut defs: Vec<IdlDefinition> = vec![];
+        for l in lines {
+            real::apply(&mut defs, l, &mut f);
+        }
+        let views: Vec<oracle::DefView> = defs.iter().map(oracle::DefView::new).collect();
+        oracle::violated(&views, Mode::Compat).is_empty() && oracle::violated(&views, Mode::Strict).is_empty()
+    };
+    gen::mutant_cases(&mut cases, &mut rng, n_bases, per_base, &[], &is_sound);
     let mut sampled_kinds = std::collections::BTreeSet::new();
     for c in &cases {
         id += 1;
